@@ -242,6 +242,9 @@ impl super::MainState {
             }
         }
 
+        #[cfg(sirc_verif)]
+        verif_point("privmsg").await;
+
         {
             // update last activity if something sent
             if something_done {
